@@ -104,7 +104,10 @@ class CassandraTypeType(type):
     def __new__(metacls, name, bases, dct):
         dct.setdefault('cassname', name)
         cls = type.__new__(metacls, name, bases, dct)
-        if not name.startswith('_'):
+        # classes made for user-defined types (UserType.make_udt_class; kept in UserType._cache by keyspace and
+        # name) stay out of the by-name registries: the name of a UDT must not capture a plain token such as
+        # the keyspace of a later UserType(...) descriptor, or a built-in class name
+        if not name.startswith('_') and 'keyspace' not in dct:
             _casstypes[name] = cls
             if not cls.typename.startswith(apache_cassandra_type_prefix):
                 _cqltypes[cls.typename] = cls
